@@ -101,3 +101,43 @@ def p21read_exe(bdir, sl, cfg="dbg"):
     if rc != 0:
         raise BuildError("p21read failed to build:\n" + (out + err)[-4000:])
     return exe
+
+
+def scanner_exe(bdir):
+    """build cmake/schema_scanner from /repo's working tree the way its own CMakeLists does
+    (source list read from that file); cached in the per-tree build directory"""
+    import re
+    exe = os.path.join(bdir, "bin", "schema_scanner")
+    with Lock(os.path.join(bdir, "lock-scanner")):
+        if os.path.exists(exe):
+            return exe
+        cml = open(os.path.join(REPO, "cmake", "schema_scanner", "CMakeLists.txt")).read()
+        m = re.search(r"set\(schema_scanner_src(.*?)\)", cml, re.S)
+        if not m:
+            raise BuildError("cmake/schema_scanner/CMakeLists.txt: source list not found")
+        srcs = []
+        for w in m.group(1).split():
+            w = w.replace("${SC_ROOT}", REPO).replace("${CMAKE_CURRENT_SOURCE_DIR}", os.path.join(REPO, "cmake", "schema_scanner"))
+            srcs.append(w)
+        defs = re.findall(r"target_compile_definitions\(schema_scanner PUBLIC ([^)]*)\)", cml)
+        dflags = ["-D" + d for d in (defs[-1].split() if defs else ["SC_STATIC", "SCHEMA_SCANNER"])]
+        odir = os.path.join(bdir, "verif-scanner")
+        os.makedirs(odir, exist_ok=True)
+        inc = ["-I" + os.path.join(REPO, p) for p in ("include", "src/express", "src/express/generated", "src/exp2cxx")] + \
+              ["-I" + os.path.join(bdir, "include")]
+
+        def cc(src):
+            obj = os.path.join(odir, os.path.basename(src) + ".o")
+            comp = ["g++", "-std=c++11"] if src.endswith(".cc") else ["gcc"]
+            r, o, e = sh(comp + ["-w", "-g", "-O0", "-D" + GUARD] + dflags + inc + ["-c", src, "-o", obj], timeout=600)
+            return r, obj, (o + e)[-2000:]
+        with ThreadPoolExecutor(max_workers=16) as ex:
+            results = list(ex.map(cc, srcs))
+        for r, obj, l in results:
+            if r != 0:
+                raise BuildError("schema_scanner: compiling %s failed:\n%s" % (obj, l))
+        r, o, e = sh(["g++", "-o", exe + ".tmp"] + [obj for _, obj, _ in results], timeout=600)
+        if r != 0:
+            raise BuildError("schema_scanner: link failed:\n" + (o + e)[-2000:])
+        os.rename(exe + ".tmp", exe)
+        return exe
